@@ -956,9 +956,9 @@ func c18FixedFiles() []c18File {
 		{Label: "needs-formatting", Name: "a.evy", Content: txt("x:=1\nprint   x\n"), Mode: 0o644},
 		{Label: "large", Name: "l.evy", Content: c18LargeSource(2200), Mode: 0o755},
 		{Label: "unparsable", Name: "c.evy", Content: txt("x := \nprint )\n"), Mode: 0o644},
+		{Label: "txtar-needs-formatting", Name: "t.txtar", Content: txt("a comment\n-- one.evy --\nx:=1\nprint   x\n-- notes.txt --\nkeep   this  \n-- two.evy --\nprint \"ok\"\n"), Mode: 0o644},
 		{Label: "already-formatted", Name: "b.evy", Content: txt("x := 1\nprint x\n"), Mode: 0o664},
 		{Label: "empty", Name: "e.evy", Content: txt(""), Mode: 0o640},
-		{Label: "txtar-needs-formatting", Name: "t.txtar", Content: txt("a comment\n-- one.evy --\nx:=1\nprint   x\n-- notes.txt --\nkeep   this  \n-- two.evy --\nprint \"ok\"\n"), Mode: 0o644},
 		{Label: "txtar-unparsable-member", Name: "u.txtar", Content: txt("-- one.evy --\nprint 1\n-- two.evy --\nprint )\n"), Mode: 0o644},
 		{Label: "mode-0600", Name: "m.evy", Content: txt("print   \"äöü\"\n"), Mode: 0o600},
 		{Label: "read-only-file", Name: "r.evy", Content: txt("if true\nprint 1\nend\n"), Mode: 0o444},
